@@ -7,6 +7,7 @@ CONSTANTS
   MaxLatch = 0
   FileSteps = TRUE
   QKinds = {}
+  Fix = {}
   KKOps = {"U", "R", "T"}
 VIEW gview
 INVARIANTS PrintCexT
